@@ -367,6 +367,7 @@ def run(ctx):
             r.finish("b%d" % k, ma)
         del uni.params[name]
         for v in ("a%d" % k, "b%d" % k):
+            r.t._peek(r.inst[v])
             r.t.objs.pop(r.inst[v], None)
         del P
         if k % 40 == 0:
